@@ -1,6 +1,8 @@
 """C13 - columns may come and go; the catalogue lists each once (narrow claim)."""
 from rules import misc as M
 from rules import operators as OP
+from rules import payload as O
+from rules import builders as B
 
 
 def run(ctx):
@@ -13,6 +15,8 @@ def run(ctx):
     ctx.run(M.flw2_compaction_covers_names)
     ctx.run(OP.pan5_result_type_lattice_total)
     ctx.run(OP.tbl20_registry_forwards_null)
+    ctx.run(O.who6_column_handles_are_never_removed)
+    ctx.run(B.flw27_zero_row_tables_dropped_first)
     return ctx.finish(
         'Static rules: catalogue rows are added to the event buffer before it is cloned for the '
         'write-ahead segment; the three ingestion siblings record every incoming name under both '
